@@ -219,11 +219,21 @@ impl Response {
                 body: content_buf,
             })
         } else {
+            // Without `Content-Length` or chunked encoding the body extends until the connection closes,
+            //   unless the status code rules out a body altogether.
+            let mut body: Vec<u8> = Vec::new();
+
+            if !matches!(status_code, 100..=199 | 204 | 304) {
+                reader
+                    .read_to_end(&mut body)
+                    .map_err(|_| ResponseError::Stream)?;
+            }
+
             Ok(Self {
                 version,
                 status_code: status,
                 headers,
-                body: Vec::new(),
+                body,
             })
         }
     }
